@@ -45,6 +45,7 @@ func extreme(v int) bool { return v < 0 || v > math.MaxInt32 }
 
 func bedClasses(f iogen.BedFile) []string {
 	l := []string{fmt.Sprintf("bed%d", f.N), fmt.Sprintf("write-width=%d", f.M)}
+	l = append(l, iogen.RouteClasses(f.Route)...)
 	nt := false
 	if f.M < f.N {
 		l = append(l, "narrower-write")
@@ -95,7 +96,7 @@ func checkGff(f iogen.GffFile) *vlib.Failure {
 }
 
 func gffClasses(f iogen.GffFile) []string {
-	var l []string
+	l := iogen.RouteClasses(f.Route)
 	seen := map[string]bool{}
 	for _, it := range f.Items {
 		seen["kind-"+it.Kind] = true
